@@ -100,7 +100,7 @@ type box struct {
 
 func render(items []Item, decls []string, xgo bool) string {
 	var b strings.Builder
-	b.WriteString("package main\n\nimport (\n\t\"errors\"\n\t\"fmt\"\n\t\"sort\"\n\t\"strings\"\n)\n\nvar _ = errors.New\n")
+	b.WriteString("package main\n\nimport (\n\t\"errors\"\n\t\"fmt\"\n\t\"sort\"\n\t\"strconv\"\n\t\"strings\"\n)\n\nvar _ = errors.New\nvar _ = strconv.Itoa\n")
 	extra := strings.Join(decls, "\n\n")
 	all := extra
 	for _, it := range items {
